@@ -188,6 +188,8 @@ void pbt_generate(Rng& r, int size, Case& c) {
       for (int f = 0; f < NF; ++f) for (int cl = 0; cl < 3; ++cl) if (rd == 0 || r.chance(70)) c.add("op", cl, 0, f, (long)(3 * r.below(300) + 2));   // start, 2 decision points inside
       for (int cl = 0; cl < 3; ++cl) for (int f = 0; f < NF; ++f) c.add("op", cl, 2, f, 0);                                                          // join
       for (int cl = 0; cl < 3; ++cl) c.add("op", cl, 6, 0, 4 * (long)r.below(100));                                                                   // sleep 2500 ms
+      // after the idle period: a burst of short calls (start + join at once) - every start() may retire a worker or grow the pool again
+      if (r.chance(60)) for (int cl = 0; cl < 3; ++cl) { int nb = (int)r.below(5); for (int q = 0; q < nb; ++q) { long f = (long)r.below(NF); c.add("op", cl, 0, f, 3 * (long)r.below(300)); if (r.chance(70)) c.add("op", cl, 2, f, 0); } }
     }
     for (int cl = 0; cl < 3; ++cl) c.add("op", cl, 0, (long)r.below(NF), (long)r.below(1000));
     return;
